@@ -125,6 +125,17 @@ func (o *OLVM) sandwich(c *Ctx, a, b *world.Account) []hist.TxSpec {
 	return out
 }
 
+// readSandwich: an EVM message that only looks at a natively keyed account (a transfer of nothing to it), a native
+// transfer by which that account spends, and an EVM transfer that pays it — all in one block.
+func (o *OLVM) readSandwich(c *Ctx, a *world.Account) []hist.TxSpec {
+	r := c.W.Users[1+c.R.Intn(len(c.W.Users)-1)]
+	to := ethcmn.BytesToAddress(r.Addr)
+	first := o.tx(c, a, &to, big.NewInt(0), nil, 21000, "EVM transfer of nothing to a natively keyed account")
+	s1 := Build(c, "SEND", txb.Send(r.Addr, c.W.Users[0].Addr, "OLT", "50"), "native transfer by the account the EVM just looked at", r)
+	last := o.tx(c, a, &to, big.NewInt(700+c.R.Int63n(100)), nil, 21000, "EVM transfer to the account that has just spent natively")
+	return []hist.TxSpec{first, s1, last}
+}
+
 // accessListFailure: a transfer whose gas limit is exactly the intrinsic gas of a plain transfer but which
 // carries an access list in its payload: it passes validation (which prices it without the list) and is
 // rejected by the state transition after the gas was bought. A good transfer of the same sender follows in
@@ -190,6 +201,9 @@ func (o *OLVM) Plan(c *Ctx) []hist.TxSpec {
 		if c.R.Intn(3) == 0 {
 			return o.failedSandwich(c, a, b)
 		}
+		if c.R.Intn(3) == 0 {
+			return o.readSandwich(c, a)
+		}
 		out = append(out, o.sandwich(c, a, b)...)
 		if c.R.Intn(2) == 0 {
 			out = append(out, o.sandwich(c, b, a)...)
@@ -211,6 +225,8 @@ func (o *OLVM) Plan(c *Ctx) []hist.TxSpec {
 		out = append(out, o.create(c, es[0], "loop", rtLoop, big.NewInt(0)))
 	case 7, 15, 31:
 		out = append(out, o.sandwich(c, es[0], es[1])...)
+	case 27, 33:
+		out = append(out, o.readSandwich(c, es[0])...)
 	case 8, 16:
 		out = append(out, o.accessListFailure(c, es[0], es[1])...)
 	case 11, 19:
@@ -275,7 +291,9 @@ func (o *OLVM) Plan(c *Ctx) []hist.TxSpec {
 			if i > 0 && o.OneTx {
 				break
 			}
-			switch c.R.Intn(13) {
+			switch c.R.Intn(14) {
+			case 13:
+				out = append(out, o.readSandwich(c, from)...)
 			case 12:
 				out = append(out, o.accessListFailure(c, from, es[pick(c.R, len(es))])...)
 			case 11:
